@@ -502,6 +502,29 @@ Proc(e) ==
                          !.meta = Set(meta, m, [kt |-> e.kt, n |-> e.n, dir |-> e.dir, foreign |-> FALSE, open |-> FALSE]),
                          !.st = Set(st, m, NoneS), !.last = Set(last, m, NoneS),
                          !.aux = [aux EXCEPT !.dur = Set(aux.dur, m, TRUE), !.synced = Set(aux.synced, m, FALSE)]]
+      [] e.ev = "probe_val" ->
+            \* C09: the crate's own slot decision (layout-probe hook), run-length encoded over [from, to],
+            \* against AbyLayout for EVERY length of the range; the runs must tile the range
+            LET R == e.runs IN
+            [base EXCEPT !.fails =
+                (IF /\ Len(R) > 0 /\ R[1][1] = e.from /\ R[Len(R)][2] = e.to
+                    /\ \A i \in 1..(Len(R) - 1) : R[i + 1][1] = R[i][2] + 1
+                 THEN {} ELSE {"TOOL.probe_runs"})
+                \cup (IF \A i \in 1..Len(R) : \A x \in R[i][1]..R[i][2] : ValSlot(x) = R[i][3] /\ ValEnc(x) = R[i][4]
+                      THEN {} ELSE {"C09.slot_arith"})
+                \cup (IF \A i \in 1..Len(R) : \A x \in R[i][1]..R[i][2] : ValActual(x, R[i][3]) <= R[i][3] /\ R[i][3] % 8 = 0
+                      THEN {} ELSE {"C09.fits"})]
+      [] e.ev = "probe_key" ->
+            LET R == e.runs IN
+            [base EXCEPT !.fails =
+                (IF /\ Len(R) > 0 /\ R[1][1] = e.from /\ R[Len(R)][2] = e.to
+                    /\ \A i \in 1..(Len(R) - 1) : R[i + 1][1] = R[i][2] + 1
+                 THEN {} ELSE {"TOOL.probe_runs"})
+                \cup (IF \A i \in 1..Len(R) : \A x \in R[i][1]..R[i][2] : KeySlot(x, e.voff, e.nxt) = R[i][3] /\ KeyEnc(x, e.voff, e.nxt) = R[i][4]
+                      THEN {} ELSE {"C09.slot_arith"})
+                \cup (IF \A i \in 1..Len(R) : \A x \in R[i][1]..R[i][2] :
+                            KeyActual(x, e.voff, e.nxt, R[i][3]) <= R[i][3] /\ R[i][3] % 8 = 0 /\ FreeActual(R[i][3]) <= R[i][3]
+                      THEN {} ELSE {"C09.fits"})]
       [] e.ev = "mutate_file" ->
             \* a signature byte of one of the files was changed / a foreign file swapped in
             LET mid == e.map IN
